@@ -56,7 +56,14 @@ Fixpoint start_pass (fuel:nat) (r:rt) (i:nat) (x:rresult) : res passres :=
           if c_suspended c then
             let (t, r1) := now r0 in
             if Z.leb (c_wakeup c) t then run (upd_cur r1 (set_suspended c false (c_wakeup c)))
-            else Ok (ROk, r1)
+            else
+              (* nothing executes while the script sleeps, the time limit applies nevertheless *)
+              let '(expired, r2) :=
+                if Z.eqb (r_max_runtime r1) 0 then (false, r1)
+                else let (t', r') := now r1 in (Z.ltb (r_max_runtime r1 + r_run_ts r1) t', r') in
+              if expired then
+                Ok (RRuntimeError, set_msgs (set_errflag (set_exit_req (logmsg r2 d_MaximumRuntimeReached) true) false) [])
+              else Ok (ROk, r2)
           else run r0 in
         bindr step (fun '(x1, r2) =>
           if r_exit_req r2 then Ok (PassExit x1 (set_state (set_ctxs r2 []) StEmpty))
